@@ -86,13 +86,31 @@ int next_backend_desc = 0;
  * @returns pointer to a registered liberasurecode instance
  * The caller must hold active_instances_rwlock
  */
-ec_backend_t liberasurecode_backend_instance_get_by_desc(int desc)
+static ec_backend_t backend_instance_get_by_desc_locked(int desc)
 {
     struct ec_backend *b = NULL;
     SLIST_FOREACH(b, &active_instances, link) {
         if (b->idesc == desc)
             break;
     }
+    return b;
+}
+
+/**
+ * Look up a backend instance by descriptor
+ *
+ * @returns pointer to a registered liberasurecode instance
+ * Takes active_instances_rwlock for reading; the caller must not hold it
+ */
+ec_backend_t liberasurecode_backend_instance_get_by_desc(int desc)
+{
+    struct ec_backend *b = NULL;
+
+    if (rwlock_rdlock(&active_instances_rwlock) != 0)
+        return NULL;
+    b = backend_instance_get_by_desc_locked(desc);
+    rwlock_unlock(&active_instances_rwlock);
+
     return b;
 }
 
@@ -107,7 +125,7 @@ int liberasurecode_backend_alloc_desc(void)
     for (;;) {
         if (++next_backend_desc <= 0)
             next_backend_desc = 1;
-        if (!liberasurecode_backend_instance_get_by_desc(next_backend_desc))
+        if (!backend_instance_get_by_desc_locked(next_backend_desc))
             return next_backend_desc;
     }
 }
@@ -314,9 +332,7 @@ int liberasurecode_instance_create(const ec_backend_id_t id,
     }
 
     /* Register instance and return a descriptor/instance id */
-    instance->idesc = liberasurecode_backend_instance_register(instance);
-
-    return instance->idesc;
+    return liberasurecode_backend_instance_register(instance);
 }
 
 /**
